@@ -292,6 +292,7 @@ func cmdCheck(g *Gen, prop, tier, evid, replayDir, knownPath string, loadSecs fl
 	}
 	obs = append(obs, g.globalObligations(prop)...)
 	obs = append(obs, g.callerObligations(prop)...)
+	obs = append(obs, g.typeObligations(prop)...)
 	if g.recoverProps[prop] {
 		obs = append(obs, g.recoverObligations(prop)...)
 	}
